@@ -1,6 +1,7 @@
 import os
 import time
 import socket
+import threading
 from resource import getrusage, RUSAGE_SELF
 
 from twisted.application.service import Service
@@ -9,6 +10,9 @@ from carbon.conf import settings
 
 
 stats = {}
+# The writer thread and the reactor thread both update stats; the periodic
+# snapshot-and-reset in recordMetrics() must not lose an update made in between.
+stats_lock = threading.Lock()
 prior_stats = {}
 HOSTNAME = socket.gethostname().replace('.', '_')
 PAGESIZE = os.sysconf('SC_PAGESIZE')
@@ -25,25 +29,28 @@ lastUsageTime = time.time()
 
 
 def increment(stat, increase=1):
-  try:
-    stats[stat] += increase
-  except KeyError:
-    stats[stat] = increase
+  with stats_lock:
+    try:
+      stats[stat] += increase
+    except KeyError:
+      stats[stat] = increase
 
 
 def max(stat, newval):
-  try:
-    if stats[stat] < newval:
+  with stats_lock:
+    try:
+      if stats[stat] < newval:
+        stats[stat] = newval
+    except KeyError:
       stats[stat] = newval
-  except KeyError:
-    stats[stat] = newval
 
 
 def append(stat, value):
-  try:
-    stats[stat].append(value)
-  except KeyError:
-    stats[stat] = [value]
+  with stats_lock:
+    try:
+      stats[stat].append(value)
+    except KeyError:
+      stats[stat] = [value]
 
 
 def getCpuUsage():
@@ -76,9 +83,10 @@ def getMemUsage():
 def recordMetrics():
   global lastUsage
   global prior_stats
-  myStats = stats.copy()
+  with stats_lock:
+    myStats = stats.copy()
+    stats.clear()
   myPriorStats = {}
-  stats.clear()
 
   # cache metrics
   if 'cache' in settings.program:
